@@ -28,7 +28,7 @@ theorem cmpKeys_eq_of_keysEq (S : Schema) : ∀ (as bs : List DNode), keysEq as 
 
 /-- what `lyd_diff_find_match` / `lyd_find_sibling_first` compare a sibling `x` with for the target `t` (fragment: no
 duplicate-instance schema nodes) -/
-def matchP (S : Schema) (t x : DNode) : Bool :=
+def matchK (S : Schema) (t x : DNode) : Bool :=
   if S.isKind t.sid .list || S.isKind t.sid .leaflist then x.sid == t.sid && sameInst S x t else x.sid == t.sid
 
 theorem findIdxFrom_eq (q : DNode → Bool) : ∀ (l : List DNode) (k : Nat),
@@ -99,16 +99,16 @@ theorem sameInst_refl (S : Schema) (a : DNode) : sameInst S a a = true := by
   | none => simp
   | some k => cases k <;> simp [keysEq_refl]
 
-theorem matchP_refl (S : Schema) (a : DNode) : matchP S a a = true := by
-  unfold matchP
+theorem matchK_refl (S : Schema) (a : DNode) : matchK S a a = true := by
+  unfold matchK
   split <;> simp [sameInst_refl]
 
 /-- a strictly smaller sibling is not the instance looked for -/
-theorem matchP_of_klt (S : Schema) (x a : DNode) (hx : shapeOk S x = true) (h : klt S x a = true) :
-    matchP S a x = false := by
+theorem matchK_of_klt (S : Schema) (x a : DNode) (hx : shapeOk S x = true) (h : klt S x a = true) :
+    matchK S a x = false := by
   unfold klt at h
   simp only [Bool.or_eq_true, decide_eq_true_eq, Bool.and_eq_true, beq_iff_eq] at h
-  unfold matchP
+  unfold matchK
   rcases h with h | ⟨⟨h1, h2⟩, h3⟩
   · have : x.sid ≠ a.sid := by omega
     split <;> simp [this]
@@ -128,18 +128,18 @@ theorem canonB_cons (S : Schema) (x : DNode) (xs : List DNode) :
 
 /-- in a canonical sibling list every instance is found at its own position -/
 theorem findIdx_self (S : Schema) : ∀ (l : List DNode) (i : Nat) (a : DNode),
-    canonB S l = true → (∀ x ∈ l, shapeOk S x = true) → l[i]? = some a → l.findIdx? (matchP S a) = some i
+    canonB S l = true → (∀ x ∈ l, shapeOk S x = true) → l[i]? = some a → l.findIdx? (matchK S a) = some i
   | [], i, a, _, _, h => by simp at h
   | x :: xs, 0, a, _, _, h => by
     simp only [List.getElem?_cons_zero, Option.some.injEq] at h
     subst h
-    simp [List.findIdx?_cons, matchP_refl]
+    simp [List.findIdx?_cons, matchK_refl]
   | x :: xs, i + 1, a, hc, hs, h => by
     simp only [List.getElem?_cons_succ] at h
     have hc' := (canonB_cons S x xs).1 hc
     have hmem : a ∈ xs := List.mem_of_getElem? h
     have hk := hc'.1 a hmem
-    have hx : matchP S a x = false := matchP_of_klt S x a (hs x (by simp)) hk
+    have hx : matchK S a x = false := matchK_of_klt S x a (hs x (by simp)) hk
     have ih := findIdx_self S xs i a hc'.2 (fun y hy => hs y (by simp [hy])) h
     simp [List.findIdx?_cons, hx, ih]
 
